@@ -202,7 +202,7 @@ def setup(tier):
     bases = []
     for c in names:
         pr = prefs[c]
-        for typ, s in base_sids(ref, pr, 3 if tier == "thorough" else (1 if tier == "c20" else 2)):
+        for typ, s in base_sids(ref, pr, 4 if tier == "thorough" else (1 if tier == "c20" else 2)):
             d = ref.forced(s, typ)
             toks = tokens(pr, typ, d)
             owners[(c, join(toks))] = typ + ":" + s
@@ -257,7 +257,7 @@ def plan(tier, seed):
 def run_shard(sh):
     ref, prefs, owners, bases, names = setup(sh["tier"])
     rec = Recorder(sh["index"], sh["count"], sh["seed"])
-    k = 2 if sh["tier"] == "thorough" else 1
+    k = 1 if sh["tier"] == "c20" else 2
     for p, c in gen(ref, prefs, bases, names, k):
         p = encode(prefs, p)
         if not rec.mine(c + "|" + p):
@@ -276,4 +276,4 @@ def replay_case(kind, case):
 
 
 def coverage(m, tier, seed):
-    return {"bounds": {"k": 2 if tier == "thorough" else 1}, "exhaustive": True}
+    return {"bounds": {"k": 2, "base_variants": 4 if tier == "thorough" else 2}, "exhaustive": True}
